@@ -478,7 +478,7 @@ def gen_unit(rng, us, name, box, depth, feats):
             t = [b[0][a] + rng.choice((0, 2)) for a in range(3)]
             mt = mat_t(m)
             dbox = xform_box(mt, [0, 0, 0], [[b[0][a] - t[a] for a in range(3)], [b[1][a] - t[a] for a in range(3)]])
-            if depth > 1 and rng.random() < 0.3 and all(s >= 4 for s in [dbox[1][a] - dbox[0][a] for a in range(3)][:2]):
+            if depth >= 1 and rng.random() < 0.45 and sum(1 for a in range(3) if dbox[1][a] - dbox[0][a] >= 4) >= 2:
                 du = gen_array(rng, us, "%sa%d" % (name, n), dbox, feats)
             else:
                 du = gen_unit(rng, us, "%sd%d" % (name, n), dbox, depth - 1, feats)
